@@ -150,4 +150,23 @@ def c14_4(c: Ctx) -> None:
     c01_3(c)
 
 
+@ob('C14.5', 'WMC', 'an accepted event leaves the queue only by being dequeued by a consumer: nothing in the library calls the queue\'s storage hooks (_get / _put / _init) or edits its '
+    'task accounting, and stop() / shutdown() do not drain the queue (the backlog is processed when the bus resumes)')
+def c14_5(c: Ctx) -> None:
+    from .c02 import check_no_raw_queue_calls
+
+    n = check_no_raw_queue_calls(c)
+    if n == 0:
+        c.ok('bubus/*.py', 'no call of the queue storage hooks, no write of its task accounting')
+    # shutdown() of the queue class removes waiters only, never items
+    ci = c.prog.cls('CleanShutdownQueue')
+    sh = ci.methods.get('shutdown')
+    if sh is not None:
+        removing = [x for x in own_nodes(sh.node) if isinstance(x, ast.Call) and call_name(x) in ('get_nowait', 'get', '_get', 'clear') and not (isinstance(x.func, ast.Attribute) and U(x.func.value).endswith(('_getters', '_putters')))]
+        if removing:
+            c.fail(sh, f'shutdown() removes queued items: {U(removing[0])[:60]}', 'stopping a bus discards its accepted backlog', node=removing[0])
+        else:
+            c.ok(where(sh), 'CleanShutdownQueue.shutdown() releases waiters and removes no queued item')
+
+
 OBLIGATIONS = ob.obs
